@@ -35,7 +35,7 @@ def gen_obj(rng):
         c.untyped = rng.choice([0.0, 0.3])
     else:
         c = lang.dense_cfg(rng, future=False)
-        c.untyped = rng.choice([0.0, 0.3])
+        c.untyped = rng.choice([0.0, 0.3, 0.5])       # (bare variables as operands: the operand list IS the caller's list)
     if rng.random() < 0.25:
         c.dup = 0.3
     f = lang.gen_formula(rng, c)
@@ -56,7 +56,7 @@ def gen_obj(rng):
         obj['units'] = rng.choice(['s', 'ms', 'us'])
     if kind == 'dt_off' and rng.random() < 0.25:
         obj['tuples'] = True
-    if kind == 'ct_on' and rng.random() < 0.4:
+    if kind == 'ct_on' and rng.random() < 0.6:
         obj['repeat'] = True
     if kind == 'dt_off' and rng.random() < 0.4:
         obj['explain'] = True
